@@ -151,7 +151,8 @@ func payloadView(typ, path string) string {
 				continue
 			}
 			if strings.HasPrefix(n, "package/services/digital-signature/") || n == "[Content_Types].xml" || n == "_rels/.rels" ||
-				n == "AppxSignature.p7x" || n == "AppxBlockMap.xml" || n == "AppxMetadata/CodeIntegrity.cat" {
+				n == "AppxSignature.p7x" || n == "AppxBlockMap.xml" || n == "AppxMetadata/CodeIntegrity.cat" ||
+				(typ == "appx" && n == "AppxManifest.xml") { // the manifest's Publisher is rewritten to the signing certificate's subject
 				continue // signature metadata rewritten by the signer
 			}
 			rc, err := f.Open()
